@@ -268,7 +268,7 @@ def _work(job):
             rep, detail = replay(r["formula"], job["seed"], r["what"])
             r["reproduced"], r["replay_detail"] = rep, detail
         out.append(r)
-    return {"results": out, "queries": linalg.STATS.queries, "solver_s": linalg.STATS.solver_s}
+    return {"results": out, "queries": linalg.STATS.queries, "solver_s": linalg.STATS.solver_s, "cross": dict(linalg.STATS.cross)}
 
 
 def run(tier, seed):
@@ -291,9 +291,12 @@ def run(tier, seed):
     chunks = [items[i::128] for i in range(128)]
     results = core.pmap(_work, [{"items": ch, "seed": seed} for ch in chunks if ch])
     nq, ss = 0, 0.0
+    cross = {"solver": "/usr/bin/z3 4.8.12", "checked": 0, "agree": 0, "disagree": 0, "unknown": 0}
     for r in results:
         nq += r["queries"]
         ss += r["solver_s"]
+        for k, v in r.get("cross", {}).items():
+            cross[k] += v
         for x in r["results"]:
             rep.cases += 1
             if x["outcome"] == "ok":
@@ -307,6 +310,10 @@ def run(tier, seed):
                     sig["exc"], sig["site"] = x["exc"], x["site"]
                 rep.violations.append({"label": x["what"], "signature": sig, "replay": {"formula": x["formula"], "seed": seed, "detail": x["detail"]}, "reproduced": x["reproduced"], "detail": x["replay_detail"]})
                 rep.replayed += 1
+    if cross["checked"]:
+        rep.extra["second_solver"] = cross
+        if cross["disagree"]:
+            rep.inconclusive.append("second solver (z3 4.8.12) disagrees on an LRA query")
     rep.stats = {"paths": rep.cases, "solver_queries": nq, "solver_s": ss, "obligations": 2 * rep.nontrivial + len(rep.violations), "discharged": 2 * rep.nontrivial, "violated": len(rep.violations)}
     return core.finish(rep)
 
